@@ -642,6 +642,13 @@ func (sc *SpecCtx) call(e *Expr) Value {
 			}
 		}
 		sc.fail("param() of a non-parameter")
+	case "rangelen":
+		if sc.resolver != nil {
+			if v, ok := sc.resolver("$rangelen"); ok {
+				return v
+			}
+		}
+		sc.fail("rangelen() outside a range-over-slice loop")
 	case "rangepos":
 		if sc.resolver != nil {
 			if v, ok := sc.resolver("$rangepos"); ok {
